@@ -581,4 +581,55 @@ theorem rule_set_other (res : Results) (sc pc i : Nat) (t : String) (row : Row) 
           · simp only [Option.map_some]
             rw [List.set_comm t _ h1, List.set_comm t _ h2]
 
+/-! ### Round 6: column layouts of the result files -/
+
+theorem mapM_replace {α β ε} (g : α → Except ε β) (a a' : α) (h : g a = g a') (before after : List α) :
+    (before ++ a :: after).mapM g = (before ++ a' :: after).mapM g := by
+  induction before with
+  | nil => simp [List.mapM_cons, h]
+  | cons b bs ih => simp [List.mapM_cons, ih]
+
+theorem mapM_zip_congr {α β ε} (g g' : α → Except ε β) : ∀ (l l' : List α), l.length = l'.length →
+    (∀ p ∈ l.zip l', g p.1 = g' p.2) → l.mapM g = l'.mapM g'
+  | [], [], _, _ => rfl
+  | [], _ :: _, hl, _ => by simp at hl
+  | _ :: _, [], hl, _ => by simp at hl
+  | a :: l, a' :: l', hl, h => by
+    have h1 : g a = g' a' := h (a, a') (by simp)
+    have ih := mapM_zip_congr g g' l l' (by simpa using hl) (fun p hp => h p (by simp [hp]))
+    simp [List.mapM_cons, h1, ih]
+
+theorem field_congr (r r' : Row) (i i' : Nat) (h : r[i]? = r'[i']?) : field r i = field r' i' := by
+  unfold field; rw [h]
+
+theorem filenameCell_readable (c : PercCols) (r : Row) (h : ∀ f, c.filename = some f → f < r.length) :
+    ∃ v, filenameCell c r = .ok v := by
+  unfold filenameCell
+  cases hf : c.filename with
+  | none => exact ⟨"", rfl⟩
+  | some f =>
+    have := h f hf
+    refine ⟨r[f], ?_⟩
+    simp [field, List.getElem?_eq_getElem this]
+
+
+theorem rowCells_andromeda_congr (c c' : PercCols) (r r' : Row) (h : SameReadCells c c' r r') :
+    (do let x ← rowCells c r; pure x.andromeda : Except String ResultRow) =
+    (do let x ← rowCells c' r'; pure x.andromeda) := by
+  obtain ⟨hid, hpe, hsc, hpp, hf, hf'⟩ := h
+  obtain ⟨v, hv⟩ := filenameCell_readable c r hf
+  obtain ⟨v', hv'⟩ := filenameCell_readable c' r' hf'
+  unfold rowCells
+  rw [field_congr r r' _ _ hid, field_congr r r' _ _ hpe, field_congr r r' _ _ hsc, field_congr r r' _ _ hpp, hv, hv']
+  cases field r' c'.peptide <;> cases field r' c'.score <;> cases field r' c'.pep <;> cases field r' c'.id <;> rfl
+
+theorem parseResultRow_eq_andromedaKey (r : ResultRow) :
+    parseResultRow r = (andromedaKey r.psmId r.peptide).map (parsedOfKey · (r.score, r.pep)) := by
+  unfold parseResultRow andromedaKey
+  simp only []
+  split
+  · rfl
+  · split <;> rfl
+
+
 end PgFdr.C15
